@@ -23,7 +23,7 @@ void __real_free(void *);
 struct ledger_blk { void *p; size_t n; unsigned long seq; };
 extern struct ledger_blk *ledger_blocks;
 extern int ledger_nblocks;
-extern int ledger_on;            /* track allocations made while != 0 */
+extern volatile int ledger_on;            /* track allocations made while != 0 */
 extern long ledger_count;        /* allocation calls seen while on (malloc/calloc/realloc) */
 extern long ledger_fail_at;      /* fail the k-th allocation call (1-based), 0 = never */
 extern long ledger_fail_at2;     /* second failure index, 0 = none */
@@ -45,5 +45,9 @@ size_t unhex(const char *h, unsigned char **out);   /* returns length; *out is a
 void exact_free(unsigned char *p, size_t n);
 unsigned char *exact_dup(const unsigned char *src, size_t n);
 void puthex(FILE *f, const void *b, size_t n);
+void cur_init(void);
+void cur_set(long idx, const unsigned char *b, size_t n);
+int cur_label(const char *s);   /* returns 1 if the sub-case is in the skip set */
+void cur_skip_set(const char *s);
 
 #endif
